@@ -53,6 +53,12 @@ def enriched():
     L2[14] = Line(L2[14].pieces + [SP(), P("cmt", "/* eol */")], "simple", 1)
     L2[17] = Line([P("sp", "  ")] + L2[17].pieces[1:], "simple", 2)
     out.append({"ftype": ".c", "fname": fname, "pre": pre, "lines": L2, "text": norm.render(pre + L2), "ids": ("enriched-bad",)})
+    # wide comments: as wide as a line of the 42 header, at file level and indented inside a body (too long there)
+    L3 = [l.copy() for l in L]
+    L3.insert(7, Line([P("cmt", "/*" + " wide" + "x" * 69 + "  */")], "comment"))
+    L3.insert(14, Line(IND(1) + [P("cmt", "/*" + " deep" + "y" * 69 + "  */")], "comment", 1))
+    L3.insert(15, Line(IND(1) + [P("cmt", "//" + " z" * 38)], "comment", 1))
+    out.append({"ftype": ".c", "fname": fname, "pre": pre, "lines": L3, "text": norm.render(pre + L3), "ids": ("enriched-wide",)})
     # expression-rich files: every atom kind of the expression grammar in a statement of its own
     from . import c01_expr as ce
     fname = "exprs.c"
@@ -104,6 +110,17 @@ def enriched():
     H.append(Line([], "empty"))
     H.append(Line([P("hash", "#"), P("dir", "endif")], "endif"))
     out.append({"ftype": ".h", "fname": fname, "pre": pre, "lines": H, "text": norm.render(pre + H), "ids": ("enriched-h",)})
+    # a header whose guard lacks its #define and that defines a macro *containing* the guard name (names of a file
+    # may be substrings of one another: a spelling coincidence no rule may depend on)
+    fname = "grid.h"
+    hdr = [Line([P("hdr", h)], "hdr42") for h in norm.header42.header_lines(fname)] + [Line([], "empty")]
+    G = [Line([P("hash", "#"), P("dir", "ifndef"), SP(), ID("guard", "GRID_H")], "ifndef"), Line([], "empty"),
+         Line([P("hash", "#"), P("pind", " "), P("dir", "define"), SP(), ID("macro", "GRID_HEIGHT"), SP()] + C("24"), "define"),
+         Line([P("hash", "#"), P("pind", " "), P("dir", "define"), SP(), ID("macro", "MY_GRID_H"), SP()] + C("1"), "define"),
+         Line([], "empty"),
+         Line(norm.sig_line("", "int", 0, "ft_grid", [("int", 0, "grid", ""), ("int", 0, "grid_w", "")], proto_col=5) + [P("semi", ";")], "proto"),
+         Line([], "empty"), Line([P("hash", "#"), P("dir", "endif")], "endif")]
+    out.append({"ftype": ".h", "fname": fname, "pre": hdr, "lines": G, "text": norm.render(hdr + G), "ids": ("guard-nodef-substring",)})
     return out
 
 
